@@ -40,6 +40,13 @@ def check_scalars(case, rec):
     op = build_mpo(shifted(case['op'], sh[1])); rho = build_mpo(shifted(case['rho'], sh[2]))
     if any(sh):
         rec.label('shifted_boundary_charges')
+    if case.get('tiny'):
+        # every scalar is homogeneous in its operands: states and operators times exact powers of two (values down to 1e-40 and
+        # below, where an ABSOLUTE threshold on the result would bite); all tolerances are relative to the product of tensor norms
+        e = case['tiny']
+        psi.A[0] = psi.A[0] * 2.0 ** e; chi.A[-1] = chi.A[-1] * 2.0 ** (e // 2)
+        rho.A[0] = rho.A[0] * 2.0 ** e; op.A[-1] = op.A[-1] * 2.0 ** (e // 3)
+        rec.label('operands_scaled_2^%d' % e)
     vchi, vpsi = cvec(chi.A), cvec(psi.A)
     Mop, Mrho = cmat(op.A), cmat(rho.A)
     mchi, mpsi, mop, mrho = tmag(chi.A), tmag(psi.A), tmag(op.A), tmag(rho.A)
@@ -149,6 +156,7 @@ def check_vdot(case, rec):
 def gen_scalars(draw, tier):
     c = draw(matrix_element_triple(Lmax=5 if tier == 'quick' else 6, dense_cap=1024))
     c['shifts'] = [draw(st.sampled_from([0, 0, 2, -1])) for _ in range(3)]
+    c['tiny'] = draw(st.sampled_from([0, 0, 0, -40, -70, 30]))
     return c
 
 
